@@ -51,6 +51,8 @@ var srcUnits = []srcUnit{
 		funcs: []string{"Mod", "Div", "Divmod", "IntMin", "GetHmsBySeconds"}},
 	{dir: ".", path: modPath, lean: "Lib", pre: "lib",
 		funcs: []string{"GetTotalSeconds", "GetFloatHour", "FloatHourToHMS"}},
+	{dir: "interval", path: modPath + "/interval", lean: "Interval", pre: "interval",
+		funcs: []string{"Less"}},
 	{dir: "cal_types/julian", path: modPath + "/cal_types/julian", lean: "Julian", pre: "julian",
 		funcs: []string{"IsLeap", "getYearDays", "getMonthDayFromYdays", "ToJd", "JdTo", "GetMonthLen"}},
 	{dir: "cal_types/jalali", path: modPath + "/cal_types/jalali", lean: "Jalali", pre: "jalali",
@@ -68,12 +70,12 @@ var srcUnits = []srcUnit{
 // functions the translator does not read but maps to a definition of lean/Starcal/SrcExt.lean
 // (hand-written, tied to the code by the correspondence check only): qualified Go name -> Lean name
 var srcExternals = map[string]string{
-	modPath + "/utils.BisectLeft":                       "SrcExt.utils_BisectLeft",
-	modPath + "/cal_types/gregorian.calTypeImp.IsLeap":  "SrcExt.gregorian_IsLeap",
-	modPath + "/cal_types/gregorian.calTypeImp.ToJd":    "SrcExt.gregorian_ToJd",
-	modPath + "/cal_types/gregorian.calTypeImp.JdTo":    "SrcExt.gregorian_JdTo",
-	modPath + ".NewDate":                                "SrcExt.lib_NewDate",
-	modPath + ".NewHMS":                                 "SrcExt.lib_NewHMS",
+	modPath + "/utils.BisectLeft":                      "SrcExt.utils_BisectLeft",
+	modPath + "/cal_types/gregorian.calTypeImp.IsLeap": "SrcExt.gregorian_IsLeap",
+	modPath + "/cal_types/gregorian.calTypeImp.ToJd":   "SrcExt.gregorian_ToJd",
+	modPath + "/cal_types/gregorian.calTypeImp.JdTo":   "SrcExt.gregorian_JdTo",
+	modPath + ".NewDate":                               "SrcExt.lib_NewDate",
+	modPath + ".NewHMS":                                "SrcExt.lib_NewHMS",
 }
 
 var srcStructs = map[string]string{
@@ -83,6 +85,37 @@ var srcStructs = map[string]string{
 
 func init() {
 	generators = append(generators, generator{"Src.lean", genSrc})
+}
+
+// structures of the translated packages themselves (all fields integers or booleans) are emitted as Lean structures
+var srcOwnStructs = map[string]string{} // qualified Go name -> Lean structure text
+var srcOwnStructOrder []string
+
+func ownStruct(n *types.Named, pre string) (string, bool) {
+	st, ok := n.Underlying().(*types.Struct)
+	if !ok || n.Obj().Pkg() == nil {
+		return "", false
+	}
+	q := n.Obj().Pkg().Path() + "." + n.Obj().Name()
+	name := pre + "_" + n.Obj().Name()
+	if _, done := srcOwnStructs[q]; done {
+		return name, true
+	}
+	var fields []string
+	for i := 0; i < st.NumFields(); i++ {
+		f := st.Field(i)
+		switch {
+		case isInt(f.Type()):
+			fields = append(fields, "  "+f.Name()+" : Int")
+		case isBool(f.Type()):
+			fields = append(fields, "  "+f.Name()+" : Bool")
+		default:
+			return "", false
+		}
+	}
+	srcOwnStructs[q] = "structure " + name + " where\n" + strings.Join(fields, "\n") + "\nderiving DecidableEq, Repr\n"
+	srcOwnStructOrder = append(srcOwnStructOrder, q)
+	return name, true
 }
 
 type untranslatable struct{ msg string }
@@ -334,6 +367,18 @@ func (t *fnTrans) leanType(ty types.Type) string {
 		if s, ok := srcStructs[n.Obj().Pkg().Path()+"."+n.Obj().Name()]; ok {
 			return s
 		}
+		if n.Obj().Pkg() == t.sp.pkg {
+			if s, ok := ownStruct(n, t.sp.unit.pre); ok {
+				return s
+			}
+		}
+	}
+	if sl, ok := ty.Underlying().(*types.Slice); ok {
+		if n, ok := sl.Elem().(*types.Named); ok && n.Obj().Pkg() == t.sp.pkg {
+			if s, ok := ownStruct(n, t.sp.unit.pre); ok {
+				return "(List " + s + ")"
+			}
+		}
 	}
 	if isInt(ty) {
 		return "Int"
@@ -556,6 +601,10 @@ func (t *fnTrans) expr(e ast.Expr) lexpr {
 		bail("selector %s", x.Sel.Name)
 	case *ast.IndexExpr:
 		xt := info.Types[x.X].Type
+		if s, ok := xt.Underlying().(*types.Slice); ok && !isInt(s.Elem()) {
+			_ = t.leanType(xt) // a slice of one of the package's own structures, or outside the fragment
+			return lexpr{"(GoSem.idxA " + t.val(x.X) + " " + t.val(x.Index) + ")", true}
+		}
 		if s, ok := xt.Underlying().(*types.Slice); !ok || !isInt(s.Elem()) {
 			bail("index into %s", xt)
 		}
@@ -1043,6 +1092,8 @@ func translateFunc(sp *srcPkg, all map[string]*srcPkg, name string) (d srcDef) {
 		if n, ok := rt.(*types.Named); ok {
 			if ls, ok := srcStructs[n.Obj().Pkg().Path()+"."+n.Obj().Name()]; ok && len(r.Names) == 1 {
 				params = append(params, "("+t.nameOf(sp.info.Defs[r.Names[0]])+" : "+ls+")")
+			} else if _, isSlice := n.Underlying().(*types.Slice); isSlice && len(r.Names) == 1 {
+				params = append(params, "("+t.nameOf(sp.info.Defs[r.Names[0]])+" : "+t.leanType(rt)+")")
 			}
 		}
 	}
@@ -1144,7 +1195,9 @@ func genSrc() (string, error) {
 	b.WriteString("import Starcal.GoSem\nimport Starcal.SrcExt\n")
 	b.WriteString("/-! REGENERATED on every run by harness/cmd/extract/srcfn.go from /repo's current source:\n")
 	b.WriteString("    the integer fragment of the Go code as Lean definitions (`none` = run-time panic). Do not edit. -/\n")
-	b.WriteString("set_option linter.unusedVariables false\n\nnamespace Starcal.Gen.Src\nopen Starcal\n\n")
+	b.WriteString("set_option linter.unusedVariables false\n\nnamespace Starcal.Gen.Src\nopen Starcal\n\n@STRUCTS@\n")
+	structsAt := b.Len()
+	_ = structsAt
 	for _, sp := range order {
 		var tn []types.Object
 		for o := range sp.tables {
@@ -1209,6 +1262,13 @@ func genSrc() (string, error) {
 	}
 	fmt.Fprintf(&b, "/-- the functions translated on this run -/\ndef translated : List String := [%s]\n\n", strings.Join(ok, ", "))
 	b.WriteString("end Starcal.Gen.Src\n")
+	structs := ""
+	for _, q := range srcOwnStructOrder {
+		structs += srcOwnStructs[q] + "\n"
+	}
+	out := strings.Replace(b.String(), "@STRUCTS@\n", structs, 1)
+	b.Reset()
+	b.WriteString(out)
 	for _, s := range soft {
 		fmt.Fprintln(os.Stderr, "extract-soft: src:", s)
 	}
